@@ -244,4 +244,6 @@ def cases(tier):
     cs.append(dict(name="wrap.local", fn=h_library_wrap, params=dict(which="local"), **R))
     from .tstep import tree_cases
     cs += tree_cases(PROPERTY, tier, hibernation_values=(False,)) + run_cases(PROPERTY, tier, hib_values=(False,))
+    from .selftest import cases as _selftest_cases
+    cs += _selftest_cases(tier)  # shim validation on constants (adversarial table), DESIGN 5.3
     return cs
